@@ -4,6 +4,7 @@ import (
 	"fmt"
 	"reflect"
 	"sync"
+	"sync/atomic"
 	"testing"
 
 	"github.com/enbility/spine-go/model"
@@ -61,18 +62,20 @@ func registryMix(t *testing.T, prop, registry string) {
 				}
 			}
 			w.Sync()
-			start := make(chan struct{})
+			// the three leave a spinning rendezvous together (a channel close wakes them one after the other)
+			var ready atomic.Int32
 			var wg sync.WaitGroup
 			for p := range calls {
 				p := p
 				wg.Add(1)
 				go func() {
 					defer wg.Done()
-					<-start
+					ready.Add(1)
+					for spins := 0; ready.Load() < int32(len(calls)) && spins < 50_000_000; spins++ {
+					}
 					w.Peers[p].Send(msgs[p])
 				}()
 			}
-			close(start)
 			world.WaitOrDiagnose(t, &wg, prop+"/concurrent", fmt.Sprintf("%s requests and deletes for different server features at once (round %d, pattern %03b)", registry, r, pattern))
 			w.Sync()
 			for p := range calls {
@@ -86,9 +89,19 @@ func registryMix(t *testing.T, prop, registry string) {
 					world.Fail(t, prop+"/concurrent/independent-request-not-granted", "round %d: the request of peer %d for its own server feature (pattern %03b: set bits delete, others bind) got %d success results", r, p+1, pattern, ok)
 				}
 			}
-			got, _ := w.Bindings()
+			got, ids := w.Bindings()
 			if registry == "subscription" {
-				got, _ = w.Subscriptions()
+				got, ids = w.Subscriptions()
+			}
+			// every entry of the registry has an id of its own, also when entries were added at the same moment
+			seenID := map[uint64]int{}
+			for pi, l := range ids {
+				for _, id := range l {
+					if other, dup := seenID[id]; dup {
+						world.Fail(t, prop+"/duplicate-id/concurrent", "round %d (pattern %03b): the %s entries of peer %d and peer %d carry the same id %d", r, pattern, registry, other+1, pi+1, id)
+					}
+					seenID[id] = pi
+				}
 			}
 			if !regs.KeysEqual(got, want) {
 				kind := "deleted-" + registry + "-back"
